@@ -793,4 +793,465 @@ theorem buildPayloadLoop_err (l : List (ABIEnc × Option SV))
   res_cases _ (buildPayloadLoop_not_panic l hv) (fun bs hbs => h (buildPayloadLoop_ok l bs hbs).1)
 
 
+theorem buildHeader_ok (rf : BaseFields) (bs : Bytes) (h : buildHeader rf = .ok bs) :
+    (0 ≤ rf.linkFee ∧ rf.linkFee < (2 : Int) ^ 192) ∧ (0 ≤ rf.nativeFee ∧ rf.nativeFee < (2 : Int) ^ 192) ∧
+    bs = rf.feedID ++ (abiWord rf.validFrom ++ (abiWord rf.timestamp ++ (abiWord rf.nativeFee ++
+          (abiWord rf.linkFee ++ (abiWord rf.expiresAt ++ []))))) := by
+  unfold buildHeader at h
+  split at h
+  · cases h
+  · rename_i hnone
+    simp only [Option.or_eq_none_iff, feeCheck_none] at hnone
+    refine ⟨hnone.1, hnone.2, ?_⟩
+    cases h
+    simp only [List.append_assoc, List.append_nil]
+
+theorem buildHeader_err (rf : BaseFields)
+    (h : ¬ ((0 ≤ rf.linkFee ∧ rf.linkFee < (2 : Int) ^ 192) ∧ (0 ≤ rf.nativeFee ∧ rf.nativeFee < (2 : Int) ^ 192))) :
+    ∃ c, buildHeader rf = .err c := by
+  unfold buildHeader
+  split
+  · rename_i c _; exact ⟨c, rfl⟩
+  · rename_i hnone
+    simp only [Option.or_eq_none_iff, feeCheck_none] at hnone
+    exact absurd hnone h
+
+theorem buildHeader_not_panic (rf : BaseFields) : buildHeader rf ≠ .panic := by
+  unfold buildHeader; split <;> simp
+
+theorem abiDecodeUnpacked_words (feed : Bytes) (hfeed : feed.length = 32) (vf ts ex : Nat) (nf lf : Int)
+    (hvf : vf < 2 ^ 32) (hts : ts < 2 ^ 32) (hex : ex < 2 ^ 32)
+    (hnf : 0 ≤ nf ∧ nf < (2 : Int) ^ 192) (hlf : 0 ≤ lf ∧ lf < (2 : Int) ^ 192)
+    (layout : List (List (Option (Bool × Nat)))) (payload : Bytes) (vals : List (List Int))
+    (hp : decodePaddedValues layout payload = some vals) :
+    abiDecodeUnpacked layout
+      ((feed ++ (abiWord vf ++ (abiWord ts ++ (abiWord nf ++ (abiWord lf ++ (abiWord ex ++ [])))))) ++ payload)
+    = some { feedID := feed, validFrom := vf, timestamp := ts, nativeFee := nf.toNat, linkFee := lf.toNat,
+             expiresAt := ex, values := vals } := by
+  have hlen : (feed ++ (abiWord vf ++ (abiWord ts ++ (abiWord nf ++ (abiWord lf ++ (abiWord ex ++ [])))))).length
+      = 192 := by
+    simp [hfeed, abiWord_length]
+  unfold abiDecodeUnpacked
+  rw [if_neg (by rw [List.length_append, hlen]; omega), List.take_left' hlen, List.drop_left' hlen]
+  rw [splitWords_cons _ _ _ hfeed]
+  repeat rw [splitWords_cons _ _ _ (abiWord_length _)]
+  rw [splitWords_nil]
+  simp only [Option.map_some]
+  rw [wordUint_abiWord_nat 32 (by omega) vf hvf, wordUint_abiWord_nat 32 (by omega) ts hts,
+    wordUint_abiWord_nat 32 (by omega) ex hex,
+    wordUint_abiWord 192 (by omega) nf hnf.1 hnf.2, wordUint_abiWord 192 (by omega) lf hlf.1 hlf.2, hp]
+  rfl
+
+
+theorem buildPayload_ok (abi : List ABIEnc) (vals : List (Option SV)) (bs : Bytes)
+    (h : buildPayload abi vals = .ok bs) :
+    abi.length = vals.length ∧ (∀ p ∈ abi.zip vals, fitsPadded p.1 p.2) ∧
+    decodePaddedValues (unpackedLayout abi) bs = some ((abi.zip vals).map (fun p => specPadded p.1 p.2)) := by
+  unfold buildPayload at h
+  split at h
+  · cases h
+  · rename_i hlen
+    have hlen' : abi.length = vals.length := by omega
+    obtain ⟨hf, hd⟩ := buildPayloadLoop_ok _ bs h
+    refine ⟨hlen', hf, ?_⟩
+    have : (abi.zip vals).map (fun p => p.1.encoders.map (fun e => parseType e.ty)) = unpackedLayout abi := by
+      have h1 := congrArg (List.map (fun (a : ABIEnc) => a.encoders.map (fun e => parseType e.ty)))
+        (List.map_fst_zip (l₁ := abi) (l₂ := vals) (by omega))
+      rw [List.map_map] at h1
+      exact h1
+    rw [← this]; exact hd
+
+theorem buildPayload_not_panic (abi : List ABIEnc) (vals : List (Option SV)) (hv : valuesOk vals) :
+    buildPayload abi vals ≠ .panic := by
+  unfold buildPayload
+  split
+  · simp
+  · apply buildPayloadLoop_not_panic
+    intro p hp sv hsv
+    exact hv p.2 (List.of_mem_zip hp).2 sv hsv
+
+theorem buildPayload_err (abi : List ABIEnc) (vals : List (Option SV)) (hv : valuesOk vals)
+    (h : ¬ (abi.length = vals.length ∧ ∀ p ∈ abi.zip vals, fitsPadded p.1 p.2)) :
+    ∃ c, buildPayload abi vals = .err c :=
+  res_cases _ (buildPayload_not_panic abi vals hv)
+    (fun bs hbs => h ⟨(buildPayload_ok abi vals bs hbs).1, (buildPayload_ok abi vals bs hbs).2.1⟩)
+
+theorem encodeUnpacked_ok (r : Report) (o : UnpackedOpts) (bs : Bytes) (h : encodeUnpacked r o = .ok bs) :
+    r.specimen = false ∧ ∃ v0 v1 rest, r.values = v0 :: v1 :: rest ∧
+      r.validAfter / 1000000000 ≤ 4294967295 ∧ r.obsTs / 1000000000 ≤ 4294967295 ∧
+      feeSafeOf v0 o.baseUSDFee ∧ feeSafeOf v1 o.baseUSDFee ∧
+      ∃ header payload, bs = header ++ payload ∧
+      buildHeader
+        { feedID := o.feedID, validFrom := (r.validAfter / 1000000000 + 1) % 2 ^ 32,
+          timestamp := r.obsTs / 1000000000,
+          nativeFee := specFeeOf v0 o.baseUSDFee, linkFee := specFeeOf v1 o.baseUSDFee,
+          expiresAt := (r.obsTs / 1000000000 + o.window) % 2 ^ 32 } = .ok header ∧
+      buildPayload o.abi rest = .ok payload := by
+  unfold encodeUnpacked at h
+  split at h
+  · cases h
+  · rename_i hspec
+    refine ⟨by simpa using hspec, ?_⟩
+    split at h
+    · rename_i v0 v1 rest hvals
+      obtain ⟨np, hp0, h⟩ := bind_eq_ok h
+      obtain ⟨lp, hp1, h⟩ := bind_eq_ok h
+      obtain ⟨⟨vas, ots⟩, hts, h⟩ := bind_eq_ok h
+      obtain ⟨hvas, hots, hvas32, hots32⟩ := extractTimestamps_ok r vas ots hts
+      simp only [] at h
+      obtain ⟨nf, hnf, h⟩ := bind_eq_ok h
+      obtain ⟨lf, hlf, h⟩ := bind_eq_ok h
+      obtain ⟨header, hh, h⟩ := bind_eq_ok h
+      obtain ⟨payload, hpl, hfin⟩ := bind_eq_ok h
+      obtain ⟨rfl, hsn⟩ := calculateFee_ok _ _ _ hnf
+      obtain ⟨rfl, hsl⟩ := calculateFee_ok _ _ _ hlf
+      obtain ⟨e0, s0⟩ := extractPrice_fee v0 np o.baseUSDFee hp0
+      obtain ⟨e1, s1⟩ := extractPrice_fee v1 lp o.baseUSDFee hp1
+      simp only [GoRes.pure_eq, GoRes.ok.injEq] at hfin
+      refine ⟨v0, v1, rest, hvals, by omega, by omega, s0.mp hsn, s1.mp hsl, header, payload, hfin.symm, ?_, hpl⟩
+      rw [← e0, ← e1, ← hvas, ← hots]
+      exact hh
+    · cases h
+
+theorem encodeUnpacked_not_panic (r : Report) (o : UnpackedOpts) (hv : valuesOk r.values)
+    (hf : ∀ v ∈ r.values.take 2, feeSafeOf v o.baseUSDFee) : encodeUnpacked r o ≠ .panic := by
+  intro h
+  unfold encodeUnpacked at h
+  split at h
+  · cases h
+  · split at h
+    · rename_i v0 v1 rest hvals
+      rcases bind_eq_panic h with h | ⟨np, hp0, h⟩
+      · exact extractPrice_not_panic _ h
+      · rcases bind_eq_panic h with h | ⟨lp, hp1, h⟩
+        · exact extractPrice_not_panic _ h
+        · have hs0 : feeSafe np o.baseUSDFee :=
+            (extractPrice_fee v0 np _ hp0).2.mpr (hf v0 (by rw [hvals]; simp))
+          have hs1 : feeSafe lp o.baseUSDFee :=
+            (extractPrice_fee v1 lp _ hp1).2.mpr (hf v1 (by rw [hvals]; simp))
+          rcases bind_eq_panic h with h | ⟨⟨vas, ots⟩, _, h⟩
+          · exact extractTimestamps_not_panic r h
+          · simp only [] at h
+            rcases bind_eq_panic h with h | ⟨nf, _, h⟩
+            · exact calculateFee_not_panic _ _ hs0 h
+            · rcases bind_eq_panic h with h | ⟨lf, _, h⟩
+              · exact calculateFee_not_panic _ _ hs1 h
+              · rcases bind_eq_panic h with h | ⟨hd, _, h⟩
+                · exact buildHeader_not_panic _ h
+                · rcases bind_eq_panic h with h | ⟨pl, _, h⟩
+                  · refine buildPayload_not_panic o.abi rest ?_ h
+                    intro v hvm sv hsv
+                    exact hv v (by rw [hvals]; simp [hvm]) sv hsv
+                  · cases h
+    · cases h
+
+
+/-! ## packed payload (streamlined) -/
+
+/-- common shape of `encodeUint64Packed` and of `encodePacked` on a decimal -/
+def Enc1.packField (e : Enc1) (x : Dec) : GoRes Bytes :=
+  if e.ty = zeroBytesSentinel then .ok []
+  else do
+    let v ← e.applyMultiplier x
+    encodePacked v e.ty
+
+theorem encodeUint64Packed_eq (e : Enc1) (t : Nat) : e.encodeUint64Packed t = e.packField ⟨t, 0⟩ := rfl
+
+theorem encodePackedSV_dec (e : Enc1) (d : Dec) : e.encodePackedSV (some (.dec d)) = e.packField d := by
+  unfold Enc1.encodePackedSV Enc1.packField
+  split <;> rfl
+
+theorem encodePacked_bytes (v : Int) (ty : String) (s : Bool) (b : Nat) (hp : parseType ty = some (s, b))
+    (bs : Bytes) (h : encodePacked v ty = .ok bs) :
+    bs.length = b / 8 ∧ (if s then toSigned b (fromBE bs) else ((fromBE bs : Nat) : Int)) = v ∧ C13.fits s b v := by
+  obtain ⟨k, rfl, hk1, hk32⟩ := parse_bits ty s b hp
+  unfold encodePacked at h
+  rw [hp] at h
+  obtain ⟨hlen, _, hval⟩ := C13.packed_bytes s k hk1 v bs h
+  have hfits : C13.fits s (8 * k) v := (C13.packed_ok_iff_fits s (8 * k) v).mp ⟨bs, h⟩
+  exact ⟨by omega, hval, hfits⟩
+
+theorem encodePacked_err (v : Int) (ty : String) (h : ¬ fitsTy (parseType ty) v) :
+    ∃ c, encodePacked v ty = .err c := by
+  unfold encodePacked
+  cases hp : parseType ty with
+  | none => exact ⟨_, rfl⟩
+  | some p =>
+    obtain ⟨s, b⟩ := p
+    rw [hp] at h
+    exact ⟨_, C13.packed_err_of_not_fits s b v h⟩
+
+theorem fieldTy_sentinel (e : Enc1) (h : e.ty = zeroBytesSentinel) : e.fieldTy = .empty := by
+  unfold Enc1.fieldTy; rw [if_pos h]
+
+theorem fieldTy_int (e : Enc1) (h : ¬ e.ty = zeroBytesSentinel) (s : Bool) (b : Nat)
+    (hp : parseType e.ty = some (s, b)) : e.fieldTy = .int s b := by
+  unfold Enc1.fieldTy; rw [if_neg h, hp]
+
+theorem packField_ok (e : Enc1) (x : Dec) (bs : Bytes) (h : e.packField x = .ok bs) :
+    fitsPackedField e x ∧ ∀ restTys tail, decodePackedFields (e.fieldTy :: restTys) (bs ++ tail) =
+      (decodePackedFields restTys tail).map (fun p => (specPackedField e x :: p.1, p.2)) := by
+  unfold Enc1.packField at h
+  by_cases hs : e.ty = zeroBytesSentinel
+  · rw [if_pos hs] at h
+    cases h
+    refine ⟨Or.inl hs, ?_⟩
+    intro restTys tail
+    rw [fieldTy_sentinel e hs]
+    simp only [decodePackedFields, specPackedField, if_pos hs, List.nil_append]
+    cases decodePackedFields restTys tail <;> rfl
+  · rw [if_neg hs] at h
+    obtain ⟨v, hv, h⟩ := bind_eq_ok h
+    obtain ⟨rfl, _⟩ := applyMultiplier_ok e x v hv
+    cases hp : parseType e.ty with
+    | none => unfold encodePacked at h; rw [hp] at h; cases h
+    | some p =>
+      obtain ⟨s, b⟩ := p
+      obtain ⟨hlen, hval, hfit⟩ := encodePacked_bytes _ _ s b hp bs h
+      refine ⟨Or.inr ((fitsTy_some hp _).mpr hfit), ?_⟩
+      intro restTys tail
+      rw [fieldTy_int e hs s b hp]
+      simp only [decodePackedFields, specPackedField, if_neg hs]
+      rw [if_neg (by simp [hlen]), List.take_left' hlen, List.drop_left' hlen, hval]
+      cases decodePackedFields restTys tail <;> rfl
+
+theorem packField_not_panic (e : Enc1) (x : Dec) (hx : decOk x) : e.packField x ≠ .panic := by
+  unfold Enc1.packField
+  split
+  · simp
+  · rw [applyMultiplier_eq e x hx]; exact encodePacked_not_panic _ _
+
+theorem packField_err (e : Enc1) (x : Dec) (hx : decOk x) (h : ¬ fitsPackedField e x) :
+    ∃ c, e.packField x = .err c :=
+  res_cases _ (packField_not_panic e x hx) (fun bs hbs => h (packField_ok e x bs hbs).1)
+
+
+theorem packInner_ok (e : Enc1) (inner : SV) (bs : Bytes) (h : e.encodePackedSV (some inner) = .ok bs) :
+    fitsPackedInner e inner ∧ ∀ restTys tail, decodePackedFields (e.fieldTy :: restTys) (bs ++ tail) =
+      (decodePackedFields restTys tail).map (fun p => (specPackedInner e inner :: p.1, p.2)) := by
+  cases inner with
+  | dec d =>
+    rw [encodePackedSV_dec] at h
+    obtain ⟨hf, hd⟩ := packField_ok e d bs h
+    refine ⟨?_, ?_⟩
+    · rcases hf with hf | hf
+      · exact Or.inl hf
+      · exact Or.inr hf
+    · intro restTys tail
+      rw [hd restTys tail]
+      simp only [specPackedField, specPackedInner]
+  | quote a b c =>
+    unfold Enc1.encodePackedSV at h
+    by_cases hs : e.ty = zeroBytesSentinel
+    · rw [if_pos hs] at h; cases h
+      refine ⟨Or.inl hs, ?_⟩
+      intro restTys tail
+      rw [fieldTy_sentinel e hs]
+      simp only [decodePackedFields, specPackedInner, if_pos hs, List.nil_append]
+      cases decodePackedFields restTys tail <;> rfl
+    · rw [if_neg hs] at h; cases h
+  | tsv t i =>
+    unfold Enc1.encodePackedSV at h
+    by_cases hs : e.ty = zeroBytesSentinel
+    · rw [if_pos hs] at h; cases h
+      refine ⟨Or.inl hs, ?_⟩
+      intro restTys tail
+      rw [fieldTy_sentinel e hs]
+      simp only [decodePackedFields, specPackedInner, if_pos hs, List.nil_append]
+      cases decodePackedFields restTys tail <;> rfl
+    · rw [if_neg hs] at h; cases h
+
+theorem packInner_not_panic (e : Enc1) (inner : SV) (hi : svOk inner) :
+    e.encodePackedSV (some inner) ≠ .panic := by
+  cases inner with
+  | dec d => rw [encodePackedSV_dec]; exact packField_not_panic e d hi
+  | quote a b c => unfold Enc1.encodePackedSV; split <;> simp
+  | tsv t i => unfold Enc1.encodePackedSV; split <;> simp
+
+/-- an element of the streamlined payload that encodes: it fits, and its bytes decode to the specification -/
+theorem abiEncodePacked_ok (a : ABIEnc) (v : Option SV) (bs : Bytes) (h : a.encodePacked v = .ok bs) :
+    fitsPacked a v ∧ ∀ tail, decodePackedFields (a.encoders.map Enc1.fieldTy) (bs ++ tail) =
+      some (specPacked a v, tail) := by
+  unfold ABIEnc.encodePacked at h
+  split at h
+  · rename_i d
+    split at h
+    · rename_i e henc
+      rw [encodePackedSV_dec] at h
+      obtain ⟨hf, hd⟩ := packField_ok e d bs h
+      refine ⟨by simpa only [fitsPacked, henc] using hf, ?_⟩
+      intro tail
+      simp only [henc, List.map, specPacked]
+      rw [hd [] tail]
+      rfl
+    · cases h
+  · rename_i t inner
+    split at h
+    · rename_i e0 e1 henc
+      obtain ⟨ts, hts, h⟩ := bind_eq_ok h
+      obtain ⟨vb, hvb, h⟩ := bind_eq_ok h
+      rw [encodeUint64Packed_eq] at hts
+      obtain ⟨hf0, hd0⟩ := packField_ok e0 _ ts hts
+      obtain ⟨hf1, hd1⟩ := packInner_ok e1 inner vb hvb
+      cases h
+      refine ⟨by simp only [fitsPacked, henc]; exact ⟨hf0, hf1⟩, ?_⟩
+      intro tail
+      simp only [henc, List.map, specPacked, List.append_assoc]
+      rw [hd0, hd1 [] tail]
+      rfl
+    · cases h
+  · cases h
+
+theorem abiEncodePacked_not_panic (a : ABIEnc) (v : Option SV) (hv : ∀ sv, v = some sv → svOk sv) :
+    a.encodePacked v ≠ .panic := by
+  intro h
+  unfold ABIEnc.encodePacked at h
+  split at h
+  · rename_i d
+    have hd : decOk d := hv _ rfl
+    split at h
+    · rw [encodePackedSV_dec] at h; exact packField_not_panic _ d hd h
+    · cases h
+  · rename_i t inner
+    have hi : svOk inner := hv (.tsv t inner) rfl
+    split at h
+    · rename_i e0 e1 _
+      rcases bind_eq_panic h with h | ⟨ts, _, h⟩
+      · rw [encodeUint64Packed_eq] at h; exact packField_not_panic e0 ⟨t, 0⟩ (decOk_nat t) h
+      · rcases bind_eq_panic h with h | ⟨vb, _, h⟩
+        · exact packInner_not_panic e1 inner hi h
+        · cases h
+    · cases h
+  · cases h
+
+theorem abiEncodePacked_err (a : ABIEnc) (v : Option SV) (hv : ∀ sv, v = some sv → svOk sv)
+    (h : ¬ fitsPacked a v) : ∃ c, a.encodePacked v = .err c :=
+  res_cases _ (abiEncodePacked_not_panic a v hv) (fun bs hbs => h (abiEncodePacked_ok a v bs hbs).1)
+
+theorem packValues_ok (l : List (ABIEnc × Option SV)) (bs : Bytes) (h : packValues l = .ok bs) :
+    (∀ p ∈ l, fitsPacked p.1 p.2) ∧
+    decodePackedValues (l.map (fun p => p.1.encoders.map Enc1.fieldTy)) bs =
+      some (l.map (fun p => specPacked p.1 p.2)) := by
+  induction l generalizing bs with
+  | nil =>
+    simp only [packValues] at h
+    cases h
+    exact ⟨by simp, rfl⟩
+  | cons p rest ih =>
+    obtain ⟨a, v⟩ := p
+    simp only [packValues] at h
+    obtain ⟨b, hb, h⟩ := bind_eq_ok h
+    obtain ⟨bs', hrest, h⟩ := bind_eq_ok h
+    cases h
+    obtain ⟨hf, hdec⟩ := ih bs' hrest
+    obtain ⟨hfa, hda⟩ := abiEncodePacked_ok a v b hb
+    refine ⟨?_, ?_⟩
+    · intro p hp
+      rcases List.mem_cons.mp hp with rfl | hp
+      · exact hfa
+      · exact hf p hp
+    · simp only [List.map, decodePackedValues]
+      rw [hda bs']
+      simp only [Option.bind_eq_bind, Option.bind_some]
+      rw [hdec]
+      rfl
+
+theorem packValues_not_panic (l : List (ABIEnc × Option SV))
+    (hv : ∀ p ∈ l, ∀ sv, p.2 = some sv → svOk sv) : packValues l ≠ .panic := by
+  induction l with
+  | nil => simp [packValues]
+  | cons p rest ih =>
+    obtain ⟨a, v⟩ := p
+    have ih' := ih (fun p hp => hv p (List.mem_cons_of_mem _ hp))
+    have hp := abiEncodePacked_not_panic a v (hv (a, v) (List.mem_cons_self ..))
+    intro h
+    simp only [packValues] at h
+    rcases bind_eq_panic h with h | ⟨b, _, h⟩
+    · exact hp h
+    · rcases bind_eq_panic h with h | ⟨bs', _, h⟩
+      · exact ih' h
+      · cases h
+
+
+theorem encodeStreamlined_ok (r : Report) (format : Nat) (o : StreamlinedOpts) (bs : Bytes)
+    (h : encodeStreamlined r format o = .ok bs) :
+    o.abi.length = r.values.length ∧ (∀ p ∈ o.abi.zip r.values, fitsPacked p.1 p.2) ∧
+    ∃ payload, bs = streamlinedHeader r format o ++ payload ∧
+      decodePackedValues (streamlinedLayout o.abi) payload =
+        some ((o.abi.zip r.values).map (fun p => specPacked p.1 p.2)) := by
+  unfold encodeStreamlined at h
+  split at h
+  · cases h
+  · rename_i hlen
+    have hlen' : o.abi.length = r.values.length := by omega
+    obtain ⟨payload, hp, hfin⟩ := bind_eq_ok h
+    obtain ⟨hf, hd⟩ := packValues_ok _ payload hp
+    simp only [GoRes.pure_eq, GoRes.ok.injEq] at hfin
+    refine ⟨hlen', hf, payload, hfin.symm, ?_⟩
+    have : (o.abi.zip r.values).map (fun p => p.1.encoders.map Enc1.fieldTy) = streamlinedLayout o.abi := by
+      have h1 := congrArg (List.map (fun (a : ABIEnc) => a.encoders.map Enc1.fieldTy))
+        (List.map_fst_zip (l₁ := o.abi) (l₂ := r.values) (by omega))
+      rw [List.map_map] at h1
+      exact h1
+    rw [← this]; exact hd
+
+theorem encodeStreamlined_not_panic (r : Report) (format : Nat) (o : StreamlinedOpts) (hv : valuesOk r.values) :
+    encodeStreamlined r format o ≠ .panic := by
+  intro h
+  unfold encodeStreamlined at h
+  split at h
+  · cases h
+  · rcases bind_eq_panic h with h | ⟨p, _, h⟩
+    · refine packValues_not_panic _ ?_ h
+      intro p hp sv hsv
+      exact hv p.2 (List.of_mem_zip hp).2 sv hsv
+    · cases h
+
+theorem fromBE_beBytes_lt (len n : Nat) (h : n < 2 ^ (8 * len)) : fromBE (beBytes len n) = n := by
+  rw [fromBE_beBytes, pow256, Nat.mod_eq_of_lt h]
+
+theorem abiDecodeStreamlined_feed (f : Bytes) (hf : f.length = 32) (va : Nat) (hva : va < 2 ^ 64)
+    (layout : List (List FieldTy)) (payload : Bytes) (vals : List (List (Option Int)))
+    (hp : decodePackedValues layout payload = some vals) :
+    abiDecodeStreamlined true layout ((f ++ beBytes 8 va) ++ payload) =
+      some { feedID := some f, formatChannel := none, validAfter := va, values := vals } := by
+  have hl : (f ++ beBytes 8 va).length = 32 + 8 := by simp [hf, beBytes_length]
+  unfold abiDecodeStreamlined
+  simp only [if_true]
+  rw [if_neg (by rw [List.length_append, hl]; omega), List.drop_left' hl, hp]
+  simp only [Option.bind_eq_bind, Option.bind_some]
+  rw [List.append_assoc, List.take_left' hf, List.drop_left' hf,
+    List.take_left' (beBytes_length 8 va), fromBE_beBytes_lt 8 va (by simpa using hva)]
+  rfl
+
+theorem abiDecodeStreamlined_chan (format ch : Nat) (hfmt : format < 2 ^ 32) (hch : ch < 2 ^ 32)
+    (va : Nat) (hva : va < 2 ^ 64)
+    (layout : List (List FieldTy)) (payload : Bytes) (vals : List (List (Option Int)))
+    (hp : decodePackedValues layout payload = some vals) :
+    abiDecodeStreamlined false layout (((beBytes 4 format ++ beBytes 4 ch) ++ beBytes 8 va) ++ payload) =
+      some { feedID := none, formatChannel := some (format, ch), validAfter := va, values := vals } := by
+  have hl : ((beBytes 4 format ++ beBytes 4 ch) ++ beBytes 8 va).length = 8 + 8 := by simp [beBytes_length]
+  have hl8 : (beBytes 4 format ++ beBytes 4 ch).length = 8 := by simp [beBytes_length]
+  unfold abiDecodeStreamlined
+  simp only [Bool.false_eq_true, if_false]
+  rw [if_neg (by rw [List.length_append, hl]; omega), List.drop_left' hl, hp]
+  simp only [Option.bind_eq_bind, Option.bind_some]
+  have e1 : ((beBytes 4 format ++ beBytes 4 ch) ++ beBytes 8 va) ++ payload =
+      (beBytes 4 format ++ beBytes 4 ch) ++ (beBytes 8 va ++ payload) := by simp only [List.append_assoc]
+  have e2 : ((beBytes 4 format ++ beBytes 4 ch) ++ beBytes 8 va) ++ payload =
+      beBytes 4 format ++ (beBytes 4 ch ++ (beBytes 8 va ++ payload)) := by simp only [List.append_assoc]
+  rw [show List.drop 8 (((beBytes 4 format ++ beBytes 4 ch) ++ beBytes 8 va) ++ payload) = beBytes 8 va ++ payload
+        from by rw [e1]; exact List.drop_left' hl8,
+      List.take_left' (beBytes_length 8 va),
+      show List.take 4 (((beBytes 4 format ++ beBytes 4 ch) ++ beBytes 8 va) ++ payload) = beBytes 4 format
+        from by rw [e2]; exact List.take_left' (beBytes_length 4 format),
+      show List.drop 4 (((beBytes 4 format ++ beBytes 4 ch) ++ beBytes 8 va) ++ payload) =
+          beBytes 4 ch ++ (beBytes 8 va ++ payload)
+        from by rw [e2]; exact List.drop_left' (beBytes_length 4 format),
+      List.take_left' (beBytes_length 4 ch),
+      fromBE_beBytes_lt 8 va (by simpa using hva), fromBE_beBytes_lt 4 format (by simpa using hfmt),
+      fromBE_beBytes_lt 4 ch (by simpa using hch)]
+  rfl
+
+
 end DSV.EVM
